@@ -28,6 +28,7 @@ import (
 	"encoding/json"
 	"errors"
 	"fmt"
+	"io"
 	"os"
 	"path/filepath"
 	"reflect"
@@ -315,6 +316,45 @@ func loadKB(lib *ast.KnowledgeLibrary, b []byte, overwrite bool) (kb *ast.Knowle
 	return
 }
 
+// a conforming io.Reader that hands out the stream in short pieces (1 byte, or 1..max bytes):
+// Read may return fewer bytes than asked for without an error
+type shortReader struct {
+	b   []byte
+	p   *prng
+	max int
+}
+
+func (r *shortReader) Read(dst []byte) (int, error) {
+	if len(r.b) == 0 {
+		return 0, io.EOF
+	}
+	if len(dst) == 0 {
+		return 0, nil
+	}
+	n := 1
+	if r.max > 1 {
+		n = 1 + r.p.intn(r.max)
+	}
+	if n > len(dst) {
+		n = len(dst)
+	}
+	if n > len(r.b) {
+		n = len(r.b)
+	}
+	copy(dst, r.b[:n])
+	r.b = r.b[n:]
+	return n, nil
+}
+
+func loadKBFrom(lib *ast.KnowledgeLibrary, rd io.Reader, overwrite bool) (kb *ast.KnowledgeBase, err error) {
+	defer func() {
+		if r := recover(); r != nil {
+			err = fmt.Errorf("load panicked: %v", r)
+		}
+	}()
+	return lib.LoadKnowledgeBaseFromReader(rd, overwrite)
+}
+
 // projection of a knowledge base: name, version, per rule (name, description, salience, snapshot, flags)
 func kbMeta(kb *ast.KnowledgeBase) string {
 	var rows []string
@@ -500,6 +540,26 @@ func runC12(s C12Scenario, p *prng, exhaustive bool) (res c12Result, err error) 
 		res.Fail = "the loaded knowledge base is not registered in the library under its name and version"
 		return res, nil
 	}
+	// the same stream through readers that deliver it in short pieces must load to the same knowledge base
+	for _, max := range []int{1, 7} {
+		libs := ast.NewKnowledgeLibrary()
+		kbs, errs := loadKBFrom(libs, &shortReader{b: b1, p: p.fork(), max: max}, true)
+		if errs != nil || kbs == nil {
+			res.Fail = fmt.Sprintf("the stream does not load through a reader that returns at most %d byte(s) per Read: %v", max, errs)
+			return res, nil
+		}
+		if kbMeta(kbs) != kbMeta(kb2) || wmDump(kbs) != wmDump(kb2) {
+			res.Fail = fmt.Sprintf("loading through a reader that returns at most %d byte(s) per Read gives a different knowledge base", max)
+			return res, nil
+		}
+		// and a truncated stream still is an error through it
+		cutAt := p.intn(len(b1))
+		if kbt, errt := loadKBFrom(ast.NewKnowledgeLibrary(), &shortReader{b: b1[:cutAt], p: p.fork(), max: max}, true); errt == nil || kbt != nil {
+			res.Fail = fmt.Sprintf("the stream cut off at byte %d loads without error through a reader that returns at most %d byte(s) per Read", cutAt, max)
+			return res, nil
+		}
+	}
+	res.Stats["loads through short-read readers"] += 2
 	// store and load again
 	w2, serr2 := storeKB(lib2, s.KBName, s.Version, -1, false)
 	if serr2 != nil {
